@@ -395,14 +395,16 @@ class _Shapes(ast.NodeTransformer):
                                           for a in node.args):
             text = node.func.value.value
             import re
-            if "%" in text or re.search(r"\{[^}]", text) or \
+            # ('{}' is '%s', '{!r}' is '%r')
+            plain = text.replace("{!r}", "{}")
+            if "%" in text or re.search(r"\{[^}]", plain) or \
                     "{{" in text or "}}" in text or \
-                    text.count("{}") != len(node.args):
+                    plain.count("{}") != len(node.args):
                 return node
             right = node.args[0] if len(node.args) == 1 else ast.Tuple(
                 list(node.args), ast.Load())
-            new = ast.BinOp(ast.Constant(text.replace("{}", "%s")),
-                            ast.Mod(), right)
+            new = ast.BinOp(ast.Constant(text.replace("{!r}", "%r").replace(
+                "{}", "%s")), ast.Mod(), right)
             return ast.fix_missing_locations(ast.copy_location(new, node))
         return node
 
